@@ -1,10 +1,41 @@
 (* C19 -- PeriodicDiskRevolve really is periodic, with a period independent of n
    Property theorems only: each proof is one application of a lemma proved in Proofs/, followed by Print Assumptions. *)
 From Coq Require Import ZArith List Bool.
-From CS Require PeriodProofs.
+From CS Require PeriodProofs PeriodShape.
 From CS Require Import Actions NAdvance Multistage Exec Sched RunFacts Projections BasicInv MultistageRun AllocTotal TLBridge MixBridge.
 Import ListNotations.
 Open Scope Z_scope.
+
+(* the whole operation sequence, every l = max_n - 1 >= 0 and cm >= 1: sweep ++ revolve(last segment) ++ (Read_disk + revolve(one period)) per disk checkpoint, last first; k disk checkpoints, written exactly while more than mx steps remain; the pieces come from the memory-only generator `revolve` on the opt_0 table (the generator of class Revolve: C07) and contain no disk operation; hence disk writes only in the sweep at 0, mx, ..., (k-1) mx, none afterwards, and each disk checkpoint is read exactly once *)
+Module M_C19_periodic_shape.
+Import PeriodShape.
+Theorem C19_periodic_shape :
+  forall l cm rd wd uf ub : Z,
+         0 <= l ->
+         1 <= cm ->
+         let mx := RevSeq.mxrr cm uf rd wd in
+         exists (k : nat) (t : list (list Z)) (s0 rv : list Ops.op),
+           RevSeq.periodic_top l cm rd wd uf ub =
+           Actions.Ok
+             (fst (RevSeq.per_fwd (Z.to_nat l) l mx 0) ++
+              Ops.shift (Z.of_nat k * mx) s0 ++
+              flat_map (fun j : nat => [Ops.ORD (Z.of_nat j * mx)] ++ Ops.shift (Z.of_nat j * mx) rv)
+                (rev (seq 0 k)), mx) /\
+           (forall j : nat, (j < k)%nat <-> l - Z.of_nat j * mx > mx) /\
+           0 <= l - Z.of_nat k * mx <= Z.max mx 0 /\
+           RevSeq.get_opt_0_table (mx + 1) cm uf ub = Actions.Ok t /\
+           RevSeq.revolve (Z.to_nat (2 * l + 4)) t uf (l - Z.of_nat k * mx) cm = Actions.Ok s0 /\
+           ((0 < k)%nat -> RevSeq.revolve (Z.to_nat (2 * mx + 4)) t uf (mx - 1) cm = Actions.Ok rv) /\
+           Forall mem_only s0 /\
+           Forall mem_only rv /\
+           (forall ops : list Ops.op,
+            RevSeq.periodic_top l cm rd wd uf ub = Actions.Ok (ops, mx) ->
+            wd_positions ops = map (fun j : nat => Z.of_nat j * mx) (seq 0 k) /\
+            rd_positions ops = map (fun j : nat => Z.of_nat j * mx) (rev (seq 0 k)) /\
+            wd_positions (skipn (2 * k) ops) = []).
+Proof. exact (@PeriodShape.periodic_shape). Qed.
+Print Assumptions C19_periodic_shape.
+End M_C19_periodic_shape.
 
 (* disk writes of the forward sweep are exactly at 0, m, 2m, ... while more than m steps remain *)
 Module M_C19_periodic_sweep_writes.
